@@ -39,7 +39,9 @@ def run(tier):
     per_op, nd = (6, 800) if tier == "quick" else (50, 10000)
     st = {"single": lc.validate(ck, "C03", lc.specs_single(ck.seed + 31, per_op, dispose=True), "catalogue operators alone, dispose"),
           "depth2": lc.validate(ck, "C03", lc.specs_depth(ck.seed + 32, nd, 2, dispose=True), "depth 2, dispose"),
-          "depth3": lc.validate(ck, "C03", lc.specs_depth(ck.seed + 33, nd, 3, dispose=True), "depth 3, dispose")}
+          "depth3": lc.validate(ck, "C03", lc.specs_depth(ck.seed + 33, nd, 3, dispose=True), "depth 3, dispose"),
+          "groups": lc.validate(ck, "C03", lc.specs_groups_early(ck.seed + 34, 1 if tier == "quick" else 15, dispose=True),
+                                "window/group operators, windows subscribed or ignored, dispose")}
     ck.note("pipeline_runs", st)
     ck.nontrivial = sum(1 for g in disposing if g[1][0]["unsub"] == g[0]["dsp"]) + sum(v["validated"] for v in st.values())
     ck.note("scenarios", len(disposing))
